@@ -30,6 +30,10 @@ Common(c) ==
           A("stark_common.preprocessed_commitment", "inc", NoV, NoI, "common", "other"),
           A("stark_common", "none", NoV, NoI, "common", "invalid"),
           A("stark_common.matrix_to_instance", "swap", NoV, NoI, "common", "other"),
+          \* the lookup contexts the proof was proven against: verify_all_tables derives its own from the AIRs it rebuilds
+          A("stark_common.lookups", "empty_all", NoV, NoI, "ignored", "other"),
+          A("stark_common.lookups", "pop", NoV, NoI, "ignored", "other"),
+          A("stark_common.lookups", "clear", NoV, NoI, "ignored", "other"),
           A("stark_common.instances", "pop", NoV, NoI, "common", "other"),
           A("non_primitives", "add", "recompose", NoI, "airs", "other"), A("non_primitives", "add", "unknown/op", NoI, "airs", "other")}
     \cup {A("stark_common.degree_bits", "inc", NoV, i, "common", "other") : i \in 0..(NInst(c) - 1)}
@@ -48,7 +52,8 @@ Npo == {A("non_primitives", "swap", NoV, NoI, "airs", "other")}
     \cup {A("non_primitives.public_values", "push", NoV, i, "airs", "other") : i \in 0..1}
     \cup {A("table_packing.npo_lanes", "set", NoV, i, "ignored", "other") : i \in 0..1}
 Alts(c) == Common(c) \cup Foreign(c) \cup (IF c = "kb_d4_npo" THEN Npo ELSE {})
-Traces(c) == {"honest", "invalid_alu_cell", "invalid_const", "invalid_public_cell"} \cup (IF c = "kb_d4_npo" THEN {"invalid_npo"} ELSE {})
+\* invalid_public_cell_unchecked_bus: only the bus is violated AND the prover proves no bus at all (emptied lookup contexts)
+Traces(c) == {"honest", "invalid_alu_cell", "invalid_const", "invalid_public_cell", "invalid_public_cell_unchecked_bus"} \cup (IF c = "kb_d4_npo" THEN {"invalid_npo"} ELSE {})
 AllConfigs == {"bb_d1_alu", "bb_d4_alu", "kb_d4_npo", "kb_d5_quintic"}
 AllFields == {a.field : a \in UNION {Alts(c) : c \in AllConfigs}}
 \* quick: a pair always involves one of the fields through which the verifier is parameterised
